@@ -98,6 +98,17 @@ func (s *Store) CreateCheckpoint(operatorIDs, sourceRunnerIDs []string) (uint64,
 	return s.state.checkpointID, nil
 }
 
+// AbortPendingCheckpoint drops a checkpoint that is still waiting for
+// acknowledgements. The job calls it when it starts a new assembly: members of
+// the previous assembly that are gone will never acknowledge, and the pending
+// checkpoint would make CreateCheckpoint fail with ErrCheckpointInProgress
+// forever.
+func (s *Store) AbortPendingCheckpoint() {
+	s.stateMu.Lock()
+	defer s.stateMu.Unlock()
+	s.state.pendingSnapshot = nil
+}
+
 func (s *Store) CreateSavepoint(operatorIDs, sourceRunnerIDs []string) (cpID uint64, created bool, err error) {
 	s.stateMu.Lock()
 	defer s.stateMu.Unlock()
